@@ -74,6 +74,16 @@ Proof.
   - destruct (ack_at (set_clk s t)); [|inversion H; subst; auto]. eapply tinv_write_ack; eauto.
 Qed.
 
+Lemma cap_now_some b t a1 y : a1 = Some y -> exists x, cap_now b t a1 = Some x /\ x <= y.
+Proof. intros ->. unfold cap_now. destruct b; [exists (Z.min y t)|exists y]; split; auto; lia. Qed.
+
+Lemma cap_now_inv b t a1 x : cap_now b t a1 = Some x -> exists y, a1 = Some y /\ x <= y /\ (x = y \/ (b = true /\ x = t /\ t <= y)).
+Proof.
+  unfold cap_now. destruct b; [destruct a1 as [y|]; [|discriminate]|]; intros H; inversion H; subst.
+  - exists y. split; auto. split; [lia|]. destruct (Z_le_dec y t); [left; lia|right; repeat split; lia].
+  - exists x. split; auto. split; [lia|auto].
+Qed.
+
 Lemma tinv_recv dmax a s pn elic t d dels ok s' : Inv s -> TInv dmax a s ->
   wf_op_t dmax s (Recv pn elic t d dels ok) -> recv s pn elic t d dels ok = Ok s' -> TInv dmax a s'.
 Proof.
@@ -87,18 +97,31 @@ Proof.
     destruct (disc s) eqn:D.
     + constructor; cbn; auto; try congruence; try (intros Ha; specialize (N Ha); congruence). intros x Hx. specialize (R x Hx). lia.
     + constructor; cbn [app disc ack_at clk closing owed aq frames complete set_clk set_aq lrp]; auto.
-      * intros x Hx. destruct elic; [destruct (ack_at s) as [y|] eqn:Ea|]; try (inversion Hx; subst; lia).
-        -- inversion Hx; subst. specialize (R x eq_refl). lia.
-        -- specialize (R x Hx). lia.
+      * intros x Hx. apply cap_now_inv in Hx. destruct Hx as (y & Hy & Hle & _).
+        assert (y <= t + dmax); [|lia].
+        destruct elic; [destruct (ack_at s) as [z|] eqn:Ea|]; try (inversion Hy; subst; lia).
+        -- inversion Hy; subst. specialize (R y eq_refl). lia.
+        -- specialize (R y Hy). lia.
       * intros _ _ L t0 Hin.
+        set (a1 := if elic then match ack_at s with None => Some (t + d) | Some y => Some y end else ack_at s) in *.
         assert (Old : In (L, t0) (owed s) ->
           mem L (add pn (pn + 1) q) /\
-          (exists x, (if elic then match ack_at s with None => Some (t + d) | Some y => Some y end else ack_at s) = Some x /\ x <= t0 + dmax) /\
+          (exists x, a1 = Some x /\ x <= t0 + dmax) /\
           t0 <= t /\ (forall q0 h, In (q0, h) (frames s) -> h < L) /\ (app s = true -> complete s = true)).
         { intros Ho. destruct (O C eq_refl L t0 Ho) as (M & (x & Ex & Bx) & Tc & F & Kc). repeat split; auto; try lia.
           - apply add_mem; auto; try lia. right. apply Keep; auto.
             intros h Hh. destruct (Hd h Hh) as [q0 Hq0]. eapply F; eauto.
-          - exists x. rewrite Ex. destruct elic; auto. }
+          - exists x. unfold a1. rewrite Ex. destruct elic; auto. }
+        assert (Fin : (mem L (add pn (pn + 1) q) /\
+          (exists x, a1 = Some x /\ x <= t0 + dmax) /\
+          t0 <= t /\ (forall q0 h, In (q0, h) (frames s) -> h < L) /\ (app s = true -> complete s = true)) ->
+          mem L (add pn (pn + 1) q) /\
+          (exists x, cap_now (CAP_ACK_NOW && (Zlen (add pn (pn + 1) q) >=? MAX_ACK_RANGES)) t a1 = Some x /\ x <= t0 + dmax) /\
+          t0 <= t /\ (forall q0 h, In (q0, h) (frames s) -> h < L) /\ (app s = true -> complete s = true)).
+        { intros (M & (x & Ex & Bx) & Rest). split; auto. split; auto.
+          destruct (cap_now_some (CAP_ACK_NOW && (Zlen (add pn (pn + 1) q) >=? MAX_ACK_RANGES)) t a1 x Ex) as (x' & E1 & E2).
+          exists x'. split; auto. lia. }
+        apply Fin.
         destruct (elic && (pn >? lrp s) && (negb (app s) || complete s)) eqn:Cond; [|auto].
         destruct Hin as [Hin|Hin]; [|auto]. inversion Hin; subst; clear Hin.
         assert (elic = true /\ lrp s < L /\ (app s = true -> complete s = true)) as (He & Hl & Hk).
@@ -106,7 +129,7 @@ Proof.
           repeat split; try lia; intros Ha; rewrite Ha in Cond; cbn in Cond; auto. }
         subst elic. repeat split; auto; try lia.
         -- apply add_mem; auto; try lia.
-        -- destruct (ack_at s) as [y|] eqn:Ea; [exists y|exists (t0 + d)]; split; auto; try lia.
+        -- unfold a1. destruct (ack_at s) as [y|] eqn:Ea; [exists y|exists (t0 + d)]; split; auto; try lia.
            specialize (R y eq_refl). lia.
         -- intros q0 h Hq0. destruct (i_frames _ I q0 h Hq0). lia.
   - constructor; cbn; auto; try congruence. intros x Hx. specialize (R x Hx). lia.
@@ -222,7 +245,9 @@ Proof.
   destruct (write_ack_all dmax true (set_clk s u) delay room I T C D) as (bytes & s' & E & O1 & O2 & _); auto.
   { cbn. intros E0. rewrite E0 in Hin. destruct Hin. }
   unfold send. cbn [closing disc app complete ack_at set_clk]. rewrite C, D, A, K, Ea.
-  replace (negb (x <? u) && blocked) with false by (destruct Hp as [Hp|Hp]; [destruct (x <? u) eqn:E1; [reflexivity|lia]|subst; apply eq_sym, andb_false_r]).
+  replace (negb (if PACING_LE then x <=? u else x <? u) && blocked) with false
+    by (destruct Hp as [Hp|Hp]; [destruct PACING_LE; [destruct (x <=? u) eqn:E1|destruct (x <? u) eqn:E1]; [reflexivity|lia|reflexivity|lia]
+                                |subst; apply eq_sym, andb_false_r]).
   destruct (x <=? u) eqn:E2; [|lia]. cbn in E. exists bytes, s'. auto.
 Qed.
 
@@ -281,15 +306,37 @@ Definition prune_witness : list op :=
   [Complete; Recv 5 true 100 10 [] true; Send 120 1 1000 false; Recv 3 true 130 10 [] true;
    Recv 6 false 131 10 [5] true; Send 150 1 1000 false].
 
+Lemma prune_facts : let s := run (init true) prune_witness in
+  existsb (Z.eqb 3) (rcvd s) = true /\ contains 3 (aq s) = false /\
+  forallb (fun f => negb (contains 3 (fst f))) (frames s) = true /\ ack_at s = None /\
+  map snd (frames (run (init true) [Complete; Recv 5 true 100 10 [] true; Send 120 1 1000 false; Recv 3 true 130 10 [] true])) = [5].
+Proof. vm_compute. repeat split; reflexivity. Qed.
+
+Lemma prune_witness_wf : reach_run (init true) prune_witness.
+Proof.
+  unfold prune_witness.
+  split; [exact I|]. split; [split; [unfold pn_ok; lia|intros h []]|]. split; [exact I|].
+  split; [split; [unfold pn_ok; lia|intros h []]|]. split; [|split; exact I].
+  split; [unfold pn_ok; lia|]. intros h [<-|[]].
+  pose proof prune_facts as (_ & _ & _ & _ & F). cbv zeta in F.
+  change (snd (step (snd (step (snd (step (snd (step (init true) Complete)) (Recv 5 true 100 10 [] true))) (Send 120 1 1000 false)))
+                    (Recv 3 true 130 10 [] true)))
+    with (run (init true) [Complete; Recv 5 true 100 10 [] true; Send 120 1 1000 false; Recv 3 true 130 10 [] true]).
+  remember (frames (run (init true) [Complete; Recv 5 true 100 10 [] true; Send 120 1 1000 false; Recv 3 true 130 10 [] true])) as fr.
+  destruct fr as [|[q0 h0] [|]]; cbn in F; try discriminate. inversion F; subst. exists q0. left. reflexivity.
+Qed.
+
 Theorem prune_uncovered_refuted_l : exists ops x, reach_run (init true) ops /\
   let s := run (init true) ops in
   In x (rcvd s) /\ ~ mem x (aq s) /\ (forall q h, In (q, h) (frames s) -> ~ mem x q) /\ ack_at s = None.
 Proof.
-  exists prune_witness, 3. split.
-  - cbn. unfold pn_ok. repeat split; try lia; try tauto. intros h [<-|[]]. eexists. left. reflexivity.
-  - cbn. repeat split; auto.
-    + intros [H|[]]. lia.
-    + intros q h [H|[H|[]]]; inversion H; subst; cbn; lia.
+  exists prune_witness, 3. split; [exact prune_witness_wf|].
+  pose proof prune_facts as (E1 & E2 & E3 & E4 & _). cbv zeta in *.
+  remember (run (init true) prune_witness) as s0 eqn:Hs0. clear Hs0. repeat split; auto.
+  - apply existsb_exists in E1. destruct E1 as (y & Hy & Ey). apply Z.eqb_eq in Ey. subst. auto.
+  - intros M. apply contains_mem in M. congruence.
+  - intros q h Hin M. rewrite forallb_forall in E3. specialize (E3 _ Hin). apply contains_mem in M. cbn [fst] in E3.
+    rewrite M in E3. discriminate.
 Qed.
 
 (* (2) "an owed packet is always covered by the ACK frame written when its timer is due" is FALSE beyond the cap:
@@ -332,7 +379,7 @@ Proof.
 Qed.
 
 (* packets 5 and 9 are owed, the timer armed by 5 at 100 + 10 covers both; the send at 110 acknowledges them
-   (a blocked pacer at exactly ack_at postpones it) *)
+   (a blocked pacer before ack_at: nothing) *)
 Definition ex_t_ops : list op := [Complete; Recv 5 true 100 10 [] true; Recv 9 true 103 10 [] true].
 
 Example ex_timely_reach : reach_t 25 true (run (init true) ex_t_ops).
@@ -345,6 +392,6 @@ Qed.
 
 Example ex_timely : let s := run (init true) ex_t_ops in
   owed s = [(9, 103); (5, 100)] /\ ack_at s = Some 110 /\ closing s = false /\
-  fst (send s 110 1 1000 true) = SNothing 1 /\
+  fst (send s 109 1 1000 true) = SNothing 1 /\
   exists b s', send s 110 1 1000 false = (SFrame b [(5, 6); (9, 10)], s') /\ owed s' = [].
 Proof. cbv zeta. repeat split; try (vm_compute; reflexivity). eexists; eexists; split; vm_compute; reflexivity. Qed.
